@@ -544,6 +544,8 @@ def _run_case_once(case):
     # ---- BIOGEME.calculate_likelihood_and_derivatives, create_function, objective, check_derivatives ---
     if case['i'] % 2 == 0:
         _biogeme_paths(rec, viol, spec, names, bv, ref, gref, href, outer, gscale, hscale, g_rtol, nrows, rr)
+    if case['i'] % 4 in (1, 2):
+        _inside_larger_model(rec, viol, spec, names, bv, ref, gref, href, outer, gscale, hscale, g_rtol, nrows, rr)
 
     # ---- without database: single value path -----------------------------------------------
     if case['i'] % 2 == 1:
@@ -708,6 +710,123 @@ def _biogeme_paths(rec, viol, spec, names, bv, ref, gref, href, outer, gscale, h
         viol(f'create_objective_function-raises-{type(e).__name__}', str(e))
 
 
+def _inside_larger_model(rec, viol, spec, names, bv, ref, gref, href, outer, gscale, hscale, g_rtol, nrows, rr):
+    """The formula evaluated under the numbering of a LARGER model: after a BIOGEME object was built on {formula, other
+    formula}, the formula's id manager also holds free parameters the formula does not contain (sorting before, between and
+    after its own). Derivatives reported under a name must still be the derivatives w.r.t. that name (0 for a parameter the
+    formula does not contain); raw arrays are laid out by the model's sorted names."""
+    from ..gen import build
+    import biogeme.expressions as ex
+    from biogeme.biogeme import BIOGEME
+    from biogeme.parameters import Parameters
+
+    taken = set(spec['betas'])
+    mid = sorted(names)[len(names) // 2]
+    cands = [c for c in ('0_first', 'AAA_before', mid + '_after_' + mid, mid[:1] + '_', '~last', 'zzz_last') if c not in taken]
+    extra = [c for c in cands if rr.random() < 0.6] or [cands[0]]
+    xv = {nm: round(rr.uniform(0.3, 1.2), 3) for nm in extra}
+    try:
+        e2, _ = build.build(spec)
+        db = build.database(spec)
+        xb = [ex.Beta(nm, xv[nm], None, None, 0) for nm in extra]
+        other = xb[0] * 1.5
+        for q in xb[1:]:
+            other = other + q * q
+        bg = BIOGEME(db, {'log_like': e2, 'other': other}, parameters=Parameters())
+        bg.save_iterations = False
+        allnames = list(bg.free_beta_names)
+    except BaseException as e:
+        viol(f'BIOGEME-construction-raises-{type(e).__name__}', f'larger model: {e}')
+        return
+    if allnames != sorted(names + extra):
+        viol('reported-free-parameter-list-not-sorted-names', f'larger model: {allnames} vs {sorted(names + extra)}')
+        return
+    pos = {nm: k for k, nm in enumerate(allnames)}
+    own = {nm: k for k, nm in enumerate(names)}
+    KA = len(allnames)
+    gfull = np.zeros((KA, nrows))
+    hfull = np.zeros((KA, KA, nrows))
+    for a in names:
+        gfull[pos[a]] = gref[own[a]]
+        for b_ in names:
+            hfull[pos[a], pos[b_]] = href[own[a], own[b_]]
+    bfull = np.einsum('an,bn->nab', gfull, gfull)
+    wit = {'extra_parameters': xv, 'model_names': allnames}
+    for agg in (False, True):
+        try:
+            rn = e2.get_value_and_derivatives(database=db, prepare_ids=False, aggregation=agg, gradient=True, hessian=True, bhhh=True,
+                                              named_results=True)
+            rr_ = e2.get_value_and_derivatives(database=db, prepare_ids=False, aggregation=agg, gradient=True, hessian=True, bhhh=True)
+        except BaseException as e:
+            viol(f'derivative-request-raises-{type(e).__name__}-inside-larger-model', f'agg={agg}: {e}', **wit)
+            continue
+        rec.ev()
+        rec.c('inside_larger_model_named_compared')
+        try:
+            rows = [None] if agg else range(nrows)
+            for n_ in rows:
+                gd = rn.gradient if agg else rn.gradients[n_]
+                hd = rn.hessian if agg else rn.hessians[n_]
+                bd = rn.bhhh if agg else rn.bhhhs[n_]
+                graw = np.asarray(rr_.gradient if agg else rr_.gradients[n_], float)
+                hraw = np.asarray(rr_.hessian if agg else rr_.hessians[n_], float)
+                sel = (lambda a: a.sum(axis=-1)) if agg else (lambda a: a[..., n_])
+                gt, ht = sel(gfull), sel(hfull)
+                bt = bfull.sum(axis=0) if agg else bfull[n_]
+                m = nrows if agg else 1
+                if sorted(gd) != allnames:
+                    viol('named-results-keys', f'inside larger model: {sorted(gd)} vs {allnames}', **wit)
+                    raise StopIteration
+                if graw.shape != (KA,) or not close(graw, gt, g_rtol * 10, g_rtol * gscale * m):
+                    viol('gradient-differs-from-reference-inside-larger-model', f'agg={agg} row {n_}: raw {graw.tolist()} vs {gt.tolist()} '
+                         f'(model names {allnames})', **wit)
+                    raise StopIteration
+                if hraw.shape != (KA, KA) or not close(hraw, ht, H_RTOL * 10, H_RTOL * hscale * m):
+                    viol('hessian-differs-from-reference-inside-larger-model', f'agg={agg} row {n_}', **wit)
+                    raise StopIteration
+                for a in allnames:
+                    if not close(gd[a], gt[pos[a]], g_rtol * 10, g_rtol * gscale * m):
+                        viol('named-gradient-entry-under-wrong-name', f'inside larger model, agg={agg} row {n_}: gradient[{a!r}] = {gd[a]} but d value / d {a} = '
+                             f'{gt[pos[a]]} (model names {allnames}, formula contains {names})', **wit)
+                        raise StopIteration
+                    for b_ in allnames:
+                        if not close(hd[a][b_], ht[pos[a], pos[b_]], H_RTOL * 10, H_RTOL * hscale * m):
+                            viol('named-hessian-entry-under-wrong-name', f'inside larger model, agg={agg} row {n_} ({a},{b_}): {hd[a][b_]} vs '
+                                 f'{ht[pos[a], pos[b_]]}', **wit)
+                            raise StopIteration
+                        if not close(bd[a][b_], bt[pos[a], pos[b_]], 1e-6, 1e-8 * gscale * gscale * m):
+                            viol('named-bhhh-entry-under-wrong-name', f'inside larger model, agg={agg} row {n_} ({a},{b_}): {bd[a][b_]} vs '
+                                 f'{bt[pos[a], pos[b_]]}', **wit)
+                            raise StopIteration
+        except StopIteration:
+            pass
+        except BaseException as e:
+            viol(f'named-results-access-raises-{type(e).__name__}', f'inside larger model: {e}', **wit)
+    # create_function on the formula re-uses the model's numbering: x has the model's length
+    try:
+        fun = e2.create_function(database=db, gradient=True, hessian=True, bhhh=True)
+        x = [bv[nm] if nm in bv else xv[nm] for nm in allnames]
+        out = fun(np.array(x))
+        rec.ev()
+        rec.c('inside_larger_model_create_function_compared')
+        if sorted(out.gradient) != allnames:
+            viol('create_function-names', f'inside larger model: {sorted(out.gradient)} vs {allnames}', **wit)
+        else:
+            gs, hs = gfull.sum(axis=1), hfull.sum(axis=2)
+            if not close(out.function, ref.sum(), 1e-6, 1e-8 * max(1.0, np.abs(ref).sum())):
+                viol('create_function-value-at-x-differs', f'inside larger model: {out.function} vs {ref.sum()}', **wit)
+            for a in allnames:
+                if not close(out.gradient[a], gs[pos[a]], g_rtol * 10, g_rtol * gscale * nrows):
+                    viol('create_function-gradient-differs', f'inside larger model: gradient[{a!r}] = {out.gradient[a]} but d value / d {a} = {gs[pos[a]]} '
+                         f'(model names {allnames}, formula contains {names})', **wit)
+                    break
+                if any(not close(out.hessian[a][b_], hs[pos[a], pos[b_]], H_RTOL * 10, H_RTOL * hscale * nrows) for b_ in allnames):
+                    viol('create_function-hessian-differs', f'inside larger model: row {a}', **wit)
+                    break
+    except BaseException as e:
+        viol(f'create_function-raises-{type(e).__name__}', f'inside larger model: {e}', **wit)
+
+
 def _nodb(rec, viol, spec, names, bv, ref, gref, href, gscale, hscale, g_rtol, row):
     """data-free version of one row: the single-value path (no database)."""
     from ..gen import build
@@ -786,7 +905,7 @@ def extra(seed, tier, workdir):
 
 def finalize(cov, tier):
     out = []
-    for k in ('earlier_result_rechecked_after_later_calls', 'fd_of_engine_value_compared', 'fd_of_engine_gradient_compared', 'named_results_compared',
+    for k in ('earlier_result_rechecked_after_later_calls', 'fd_of_engine_value_compared', 'fd_of_engine_gradient_compared', 'named_results_compared', 'inside_larger_model_named_compared', 'inside_larger_model_create_function_compared',
               'biogeme_likelihood_derivatives_compared', 'create_function_compared', 'objective_function_compared',
               'check_derivatives_compared', 'nodatabase_compared'):
         if cov.get(k, 0) == 0:
